@@ -422,41 +422,71 @@ fn vb20_coin_relations(em: &mut Emitter, rng: &mut Rng) {
         let (_, r_dr) = ex("s_delta_rho");
         let coins = [sigma, rho, r_y, r_sigma, r_rho, r_ds, r_dr];
         em.oracle_case(&format!("vb20 coins {}", k));
-        let mut found: Vec<String> = vec![];
-        // operands: the coins, the hidden element, the constants 0 and 1
-        let mut operands: Vec<(String, Scalar)> = names.iter().zip(coins.iter()).map(|(n, c)| (n.to_string(), *c)).collect();
-        operands.push(("y".into(), y));
-        operands.push(("1".into(), Scalar::ONE));
-        for (i, ci) in coins.iter().enumerate() {
-            if bool::from(ci.is_zero()) {
-                found.push(format!("{}=0", names[i]));
-            }
-            for (a, (an, av)) in operands.iter().enumerate() {
-                if a == i {
-                    continue;
-                }
-                if ci == av || *ci == -*av {
-                    found.push(format!("{}=±{}", names[i], an));
-                }
-                for (b, (bn, bv)) in operands.iter().enumerate().skip(a + 1) {
-                    if b == i {
-                        continue;
-                    }
-                    for (op, val) in [("*", *av * *bv), ("+", *av + *bv), ("-", *av - *bv)] {
-                        if *ci == val || *ci == -val {
-                            found.push(format!("{}=±({}{}{})", names[i], an, op, bn));
-                        }
-                    }
-                }
-            }
-            if previous.contains(ci) {
-                found.push(format!("{} repeats a coin of an earlier commitment", names[i]));
-            }
-        }
+        let named: Vec<(String, Scalar)> = names.iter().zip(coins.iter()).map(|(n, c)| (n.to_string(), *c)).collect();
+        let found = coin_relations(&named, &[("y".to_string(), y)], &previous);
         previous.extend_from_slice(&coins);
         for r in found {
             em.violation("c07:vb20-coins-related", format!("the membership prover's coins satisfy an exact relation: {} — the responses then determine the hidden element for a dictionary attacker", r), json!({"relation": r, "proof_1": j1, "proof_2": j2, "c1": sc_hex(&c1), "c2": sc_hex(&c2)}));
         }
+    }
+}
+
+/// the same for the signature proofs of knowledge: `commit_signature_pok` takes the random source, so the same
+/// seed gives the same commitment twice and two challenges give the coins
+fn pok_coin_relations<S: ShortGroupSignatureScheme>(em: &mut Emitter, rng: &mut Rng, suite: &str) {
+    use credx::knox::short_group_sig_core::short_group_traits::ProofOfSignatureKnowledgeContribution;
+    use credx::knox::short_group_sig_core::{HiddenMessage, ProofMessage};
+    use std::num::NonZeroUsize;
+    let mut previous: Vec<Scalar> = vec![];
+    for k in 0..em.n(6, 40) {
+        let n = 2 + rng.below(5) as usize;
+        let (pk, sk) = match S::new_keys(NonZeroUsize::new(n).unwrap(), rng.chacha()) {
+            Ok(x) => x,
+            Err(_) => continue,
+        };
+        let msgs: Vec<Scalar> = (0..n).map(|_| rng.scalar()).collect();
+        let sig = match S::sign(&sk, &msgs) {
+            Ok(s) => s,
+            Err(_) => continue,
+        };
+        let mask = rng.below(1 << n) as u32;
+        let pm: Vec<ProofMessage<Scalar>> = (0..n).map(|i| if mask >> i & 1 == 1 { ProofMessage::Revealed(msgs[i]) } else { ProofMessage::Hidden(HiddenMessage::ProofSpecificBlinding(msgs[i])) }).collect();
+        let seed = rng.seed32();
+        let mk = || {
+            use rand_chacha::rand_core::SeedableRng;
+            S::commit_signature_pok(sig.clone(), &pk, &pm, rand_chacha::ChaCha20Rng::from_seed(seed))
+        };
+        let (c1, c2) = (rng.scalar(), rng.scalar());
+        let (p1, p2) = match (mk().and_then(|p| p.generate_proof(c1)), mk().and_then(|p| p.generate_proof(c2))) {
+            (Ok(a), Ok(b)) => (a, b),
+            _ => continue,
+        };
+        let (j1, j2) = (serde_json::to_value(&p1).unwrap(), serde_json::to_value(&p2).unwrap());
+        let r1: Vec<Scalar> = j1["proof"].as_array().map(|a| a.iter().filter_map(|x| x.as_str().and_then(sc_from_hex)).collect()).unwrap_or_default();
+        let r2: Vec<Scalar> = j2["proof"].as_array().map(|a| a.iter().filter_map(|x| x.as_str().and_then(sc_from_hex)).collect()).unwrap_or_default();
+        if r1.len() != r2.len() || r1.is_empty() {
+            continue;
+        }
+        // the commitments must coincide for the extraction to mean anything
+        let same_commitment = ["a_bar", "b_bar", "t", "sigma_1", "sigma_2", "commitment"].iter().all(|f| j1[*f] == j2[*f]);
+        if !same_commitment {
+            em.count(&format!("{}:pok-commitment-not-reproducible", suite));
+            continue;
+        }
+        let dinv = (c1 - c2).invert().unwrap();
+        let mut coins = vec![];
+        let mut secrets = vec![];
+        for i in 0..r1.len() {
+            // both response conventions (s = r + c·w and s = r − c·w) give the same coin
+            let w = (r1[i] - r2[i]) * dinv;
+            coins.push((format!("coin[{}]", i), r1[i] - c1 * w));
+            secrets.push((format!("secret[{}]", i), w));
+        }
+        em.oracle_case(&format!("{} pok coins {}", suite, k));
+        for r in coin_relations(&coins, &secrets, &previous) {
+            em.violation("c07:pok-coins-related", format!("{}: the signature proof's coins satisfy an exact relation: {}", suite, r), json!({"suite": suite, "relation": r, "proof_1": j1, "proof_2": j2, "c1": sc_hex(&c1), "c2": sc_hex(&c2)}));
+        }
+        previous.extend(coins.iter().map(|(_, c)| *c));
     }
 }
 
@@ -470,6 +500,8 @@ pub fn gen_c07(em: &mut Emitter, rng: &mut Rng) {
     c07_suite::<Ps>(em, rng, "ps");
     if em.mine(2 * em.n(20, 200)) {
         vb20_coin_relations(em, &mut rng.sub(6001));
+        pok_coin_relations::<Bbs>(em, &mut rng.sub(6002), "bbs");
+        pok_coin_relations::<Ps>(em, &mut rng.sub(6003), "ps");
     }
 }
 
